@@ -11,6 +11,7 @@ when the user's condition raised `ZeroDivisionError`.  `evalStack ps fx` is `p(x
 the side condition `¬ (h = 0 ∧ n < 0)` wherever the multiplier `k*h^n` is actually computed.
 -/
 import MysticVerif.Proofs.Penalty
+import MysticVerif.Proofs.PenaltyTree
 import Mathlib.Analysis.Real.Sqrt
 
 set_option linter.unusedSectionVars false
@@ -589,5 +590,661 @@ example : ∀ a : Ext, PenOps.root (a + PenOps.sq PenOps.inf) = PenOps.inf := by
   intro a; cases a <;> rfl
 
 end examples
+
+end MysticVerif.C15
+
+/-! # Penalty OBJECTS: trees built by `coupler.and_ / or_ / not_`, live member penalties, the operation state machine
+
+`Model/PenaltyTree.lean`.  Every object of a tree is a chain of levels; its condition values come from the user's
+callables (`env`) and from the member objects.  On every chain the tree functions are the flat ones, so every
+theorem above applies to every object of every tree. -/
+
+namespace MysticVerif.C15
+open MysticVerif.Pen
+
+section tree
+variable {K : Type} [Field K] [LinearOrder K] [IsStrictOrderedRing K] [PenOps K] [LawfulPenOps K]
+
+/-- `p(x)` of ANY object of a tree is `evalStack` of its chain with the condition values the combinators compute -/
+theorem tree_eval (env : Env K) (t : PT K) :
+    evalT env t = evalStack (chainVals env t) (env.f (baseOf t)) := evalT_eq_evalStack env t
+
+/-- `p.error(x)` likewise -/
+theorem tree_error (env : Env K) (t : PT K) : errT env t = errStack (chainVals env t) := errT_eq_errStack env t
+
+/-- **stacked penalties add**, for every object of a tree: `p(x) = f(x) + Σ a_i` over its chain -/
+theorem tree_stacked_add (env : Env K) (t : PT K) (ps : List (Level K × K)) (as : List K)
+    (hc : chainVals env t = ps.map fun p => (p.1, some p.2))
+    (h : List.Forall₂ (fun p a => term p.1 p.2 = .ok (.add a)) ps as) :
+    evalT env t = .ok (env.f (baseOf t) + as.sum) := by
+  rw [tree_eval, hc]; exact stacked_add ps as _ h
+
+/-- `iter()` / `iter(i)` / `clear()` on an object: its chain gets exactly the flat operation; the CONDITIONS - and with
+them every member penalty and its iteration state - and the decorated function are untouched -/
+theorem tree_iter_clear (i : Option Int) (t : PT K) :
+    (chainLevels (iterT i t) = iterStack i (chainLevels t) ∧ chainConds (iterT i t) = chainConds t
+      ∧ baseOf (iterT i t) = baseOf t) ∧
+    (chainLevels (clearT t) = clearStack (chainLevels t) ∧ chainConds (clearT t) = chainConds t
+      ∧ baseOf (clearT t) = baseOf t) :=
+  ⟨chain_iterT i t, chain_clearT t⟩
+
+/-- `store(x, i)` on an object: the flat `store` along its chain with the condition values at `x`; members untouched -/
+theorem tree_store (env : Env K) (i : Option Int) (t : PT K) :
+    chainLevels (storeT env i t).1 = (storeStack i (chainVals env t)).1
+      ∧ (storeT env i t).2 = (storeStack i (chainVals env t)).2
+      ∧ chainConds (storeT env i t).1 = chainConds t ∧ baseOf (storeT env i t).1 = baseOf t :=
+  chain_storeT env t i
+
+/-- a call on the object at the end of a path acts on exactly that object -/
+theorem tree_op_reaches_object (g : PT K → PT K) (p : List Step) (t : PT K) :
+    getT p (modT g p t) = (getT p t).map g := get_modT g p t
+
+/-- **nothing but iteration state ever changes**: for EVERY history of `iter / iter(i) / clear / store` calls on
+ARBITRARY objects (outer levels, decorated levels, member penalties at any nesting depth) of an arbitrarily nested
+tree, the tree with the iteration state (`_n[0]`, `_y`) erased is the same: no type, `k`, `h`, condition, member,
+decorated function or shape changes, no level appears or disappears -/
+theorem tree_ops_touch_only_iteration_state (os : List (TOp K)) (t : PT K) :
+    skelT (os.foldl (fun s o => o.apply s) t) = skelT t := by
+  induction os generalizing t with
+  | nil => rfl
+  | cons o os ih =>
+    rw [List.foldl_cons, ih]
+    cases o with
+    | iter p i => exact skel_modT _ (skel_iterT i) p t
+    | clear p => exact skel_modT _ skel_clearT p t
+    | store p env i => exact skel_modT _ (fun s => skel_storeT env s i) p t
+
+/-- the counter operations on an object -/
+def CtrOp.applyT (o : CtrOp) (t : PT K) : PT K :=
+  match o with
+  | .iter => iterT none t
+  | .iterI i => iterT (some i) t
+  | .clear => clearT t
+
+/-- **iter() advances and clear() resets through nested penalties**: after ANY history of `iter()` / `iter(i)` /
+`clear()` calls on an object, the iteration of every level of its chain is the counter semantics applied to its
+initial value; the conditions (member penalties and their state) and the decorated function are as before -/
+theorem tree_iteration_history (os : List CtrOp) (t : PT K) :
+    (chainLevels (os.foldl (fun s o => o.applyT s) t)).map (·.n)
+        = (chainLevels t).map (fun l => os.foldl (fun n o => o.count n) l.n)
+    ∧ chainConds (os.foldl (fun s o => o.applyT s) t) = chainConds t
+    ∧ baseOf (os.foldl (fun s o => o.applyT s) t) = baseOf t := by
+  have key : ∀ (os : List CtrOp) (t : PT K),
+      chainLevels (os.foldl (fun s o => o.applyT s) t) = os.foldl (fun s o => o.apply s) (chainLevels t)
+      ∧ chainConds (os.foldl (fun s o => o.applyT s) t) = chainConds t
+      ∧ baseOf (os.foldl (fun s o => o.applyT s) t) = baseOf t := by
+    intro os
+    induction os with
+    | nil => intro t; exact ⟨rfl, rfl, rfl⟩
+    | cons o os ih =>
+      intro t
+      simp only [List.foldl_cons]
+      obtain ⟨h1, h2, h3⟩ := ih (o.applyT t)
+      rw [h1, h2, h3]
+      cases o with
+      | iter => obtain ⟨a, b, c⟩ := chain_iterT none t; exact ⟨by rw [CtrOp.applyT, a]; rfl, b, c⟩
+      | iterI i => obtain ⟨a, b, c⟩ := chain_iterT (some i) t; exact ⟨by rw [CtrOp.applyT, a]; rfl, b, c⟩
+      | clear => obtain ⟨a, b, c⟩ := chain_clearT t; exact ⟨by rw [CtrOp.applyT, a]; rfl, b, c⟩
+  obtain ⟨h1, h2, h3⟩ := key os t
+  exact ⟨by rw [h1]; exact iteration_history os (chainLevels t), h2, h3⟩
+
+/-! ## the combinators -/
+
+/-- `coupler.and_(p1, .., pm, ptype=T, k, h)`: the penalty of type `T` whose condition value is the SUM of the
+member penalties' values; a member that raises makes it `inf` -/
+theorem and_penalty (env : Env K) (l : Level K) (ms : PL K) (z : Nat) :
+    (∀ vals, valsL env ms = some vals →
+      evalT env (.pen l (.and ms) (.base z)) = evalStack [(l, some vals.sum)] (env.f z)) ∧
+    (valsL env ms = none → evalT env (.pen l (.and ms) (.base z)) = .ok PenOps.inf) := by
+  constructor
+  · intro vals hv
+    rw [tree_eval]
+    simp only [chainVals, chain, List.map_cons, List.map_nil, condV, hv, baseOf]
+    rw [(combinator_conditions (0 : K) vals .qEq 0).1]
+  · intro hv
+    simp only [evalT, condV, hv]
+
+/-- `coupler.or_`: the condition value is the MINIMUM of the member penalties' values -/
+theorem or_penalty (env : Env K) (l : Level K) (m : PT K) (ms : PL K) (z : Nat) (v : K) (vals : List K)
+    (hm : evalT env m = .ok v) (hv : valsL env ms = some vals) :
+    evalT env (.pen l (.or m ms) (.base z)) = evalStack [(l, some (vals.foldl min v))] (env.f z) := by
+  rw [tree_eval]
+  simp only [chainVals, chain, List.map_cons, List.map_nil, condV, hm, hv, baseOf]
+  rw [(combinator_conditions v vals .qEq 0).2.1]
+
+/-- `coupler.not_`: the condition value is `-c` (inequality types: satisfied where `c >= 0`) / the indicator of
+`c == 0` (equality types: satisfied where `c != 0`); a raising condition gives `inf` -/
+theorem not_penalty (env : Env K) (l : Level K) (c : PC K) (z : Nat) (v : K) (hc : condV env c = some v) :
+    evalT env (.pen l (.not l.t c) (.base z)) = evalStack [(l, some (notCond l.t v))] (env.f z)
+    ∧ (l.t.isEq = false → (satisfied l.t (notCond l.t v) ↔ 0 ≤ v))
+    ∧ (l.t.isEq = true → (satisfied l.t (notCond l.t v) ↔ v ≠ 0)) := by
+  refine ⟨?_, ?_, ?_⟩
+  · rw [tree_eval]
+    simp only [chainVals, chain, List.map_cons, List.map_nil, condV, hc, baseOf]
+  · intro h
+    rw [(combinator_conditions (0 : K) [] l.t v).2.2.1 h]
+    simp [satisfied, h]
+  · intro h
+    rw [(combinator_conditions (0 : K) [] l.t v).2.2.2 h]
+    by_cases hv : v = 0 <;> simp [satisfied, h, hv]
+
+/-- a member object made of conforming levels (`k, h > 0`) over a zero base: its value is never negative and is
+zero exactly where ALL its conditions are satisfied -/
+theorem member_sign (env : Env K) (t : PT K) (ps : List (Level K × K))
+    (hc : chainVals env t = ps.map fun p => (p.1, some p.2)) (hz : env.f (baseOf t) = 0)
+    (h : ∀ p ∈ ps, conforming p.1.t ∧ 0 < p.1.k ∧ 0 < p.1.h) :
+    ∃ v, evalT env t = .ok v ∧ 0 ≤ v ∧ (v = 0 ↔ ∀ p ∈ ps, satisfied p.1.t p.2) := by
+  obtain ⟨v, hv, hle, hlt⟩ := stack_positive_on_violation ps 0 h
+  refine ⟨v, by rw [tree_eval, hc, hz]; exact hv, hle, ?_, ?_⟩
+  · intro h0 p hp
+    by_contra hns
+    have := hlt ⟨p, hp, hns⟩
+    linarith
+  · intro hall
+    have hz0 := stack_zero_on_feasible ps 0 (fun p hp =>
+      ⟨(h p hp).1, fun hh0 => (ne_of_gt (h p hp).2.2) hh0.1, hall p hp⟩)
+    rw [hv] at hz0
+    exact Except.ok.inj hz0
+
+/-- members of a combination, as a list -/
+def membersOf : PL K → List (PT K)
+  | .nil => []
+  | .cons m rest => m :: membersOf rest
+
+theorem valsL_spec (env : Env K) : ∀ (ms : PL K) (vals : List K),
+    valsL env ms = some vals ↔ List.Forall₂ (fun m v => evalT env m = .ok v) (membersOf ms) vals
+  | .nil, vals => by
+    simp only [valsL, membersOf, Option.some.injEq]
+    constructor
+    · intro h; rw [← h]; exact .nil
+    · intro h; cases h; rfl
+  | .cons m rest, vals => by
+    simp only [valsL, membersOf]
+    cases hm : evalT env m with
+    | error e =>
+      simp only [reduceCtorEq, false_iff]
+      intro h; cases h with | cons h1 _ => rw [hm] at h1; cases h1
+    | ok v =>
+      cases hr : valsL env rest with
+      | none =>
+        simp only [reduceCtorEq, false_iff]
+        intro h
+        cases h with
+        | cons h1 h2 => rw [(valsL_spec env rest _).mpr h2] at hr; cases hr
+      | some vs =>
+        simp only [Option.some.injEq]
+        constructor
+        · intro h; rw [← h]; exact .cons hm ((valsL_spec env rest vs).mp hr)
+        · intro h
+          cases h with
+          | cons h1 h2 =>
+            rw [hm] at h1
+            have := (valsL_spec env rest _).mpr h2
+            rw [hr] at this
+            rw [Except.ok.inj h1, Option.some.inj this]
+
+/-- **and_ = intersection**: with members whose values are never negative, the condition of `and_` is never negative
+and is zero exactly where EVERY member is zero -/
+theorem and_zero_iff (vals : List K) (h0 : ∀ v ∈ vals, 0 ≤ v) :
+    0 ≤ andCond vals ∧ (andCond vals = 0 ↔ ∀ v ∈ vals, v = 0) := by
+  rw [(combinator_conditions (0 : K) vals .qEq 0).1]
+  induction vals with
+  | nil => simp
+  | cons a vs ih =>
+    obtain ⟨h1, h2⟩ := ih (fun v hv => h0 v (by simp [hv]))
+    have ha := h0 a (by simp)
+    simp only [List.sum_cons, List.mem_cons, forall_eq_or_imp]
+    refine ⟨by linarith, ?_⟩
+    constructor
+    · intro hs
+      have hvs : vs.sum = 0 := by linarith
+      exact ⟨by linarith, h2.mp hvs⟩
+    · rintro ⟨ha0, hvs⟩
+      rw [ha0, h2.mpr hvs]; simp
+
+/-- **or_ = union**: with members whose values are never negative, the condition of `or_` is never negative and is
+zero exactly where SOME member is zero -/
+theorem or_zero_iff (v : K) (vals : List K) (hv : 0 ≤ v) (h0 : ∀ u ∈ vals, 0 ≤ u) :
+    0 ≤ orCond v vals ∧ (orCond v vals = 0 ↔ v = 0 ∨ ∃ u ∈ vals, u = 0) := by
+  rw [(combinator_conditions v vals .qEq 0).2.1]
+  induction vals generalizing v with
+  | nil => simp [hv]
+  | cons a vs ih =>
+    have ha := h0 a (by simp)
+    obtain ⟨h1, h2⟩ := ih (min v a) (le_min hv ha) (fun u hu => h0 u (by simp [hu]))
+    simp only [List.foldl_cons]
+    refine ⟨h1, ?_⟩
+    rw [h2]
+    simp only [List.mem_cons, exists_eq_or_imp]
+    constructor
+    · rintro (hm | hm)
+      · rcases le_total v a with hle | hle
+        · rw [min_eq_left hle] at hm; exact Or.inl hm
+        · rw [min_eq_right hle] at hm; exact Or.inr (Or.inl hm)
+      · exact Or.inr (Or.inr hm)
+    · rintro (hm | hm | hm)
+      · left; rw [hm]; exact min_eq_left ha
+      · left; rw [hm]; exact min_eq_right hv
+      · exact Or.inr hm
+
+/-! ## the multiplier state machine of the two Lagrange types (`store` / `iter` cycles) -/
+
+/-- one cycle of the augmented-Lagrangian outer loop on a Lagrange level whose history is complete
+(`iteration() == len(stored())`): `store(x); iter()` appends the condition value and advances the iteration -/
+theorem store_iter_cycle (l : Level K) (c : K) (hlag : l.t.isLag = true) (hn : l.n = l.y.length) :
+    (storeStack none [(l, some c)]).2 = none ∧
+    iterStack none (storeStack none [(l, some c)]).1 = [{ l with n := l.n + 1, y := l.y ++ [c] }] := by
+  simp only [storeStack, hlag, if_true, storeIdx, hn, le_refl, sub_self, Int.toNat_zero, List.replicate_zero,
+    List.nil_append, iterStack, List.map_cons, List.map_nil, and_self]
+
+/-- the whole history: `m` cycles `store(x_i); iter()` on a fresh Lagrange penalty leave `iteration() == m` and
+`stored() == [c(x_0), .., c(x_{m-1})]` -/
+theorem lagrange_cycles (t : PType) (k h : K) (hlag : t.isLag = true) (cs : List K) :
+    cs.foldl (fun (ls : List (Level K)) c => iterStack none (storeStack none (ls.map fun l => (l, some c))).1)
+      [{ t := t, k := k, h := h, n := 0, y := [] }]
+    = [{ t := t, k := k, h := h, n := cs.length, y := cs }] := by
+  have key : ∀ (cs y0 : List K),
+      cs.foldl (fun (ls : List (Level K)) c => iterStack none (storeStack none (ls.map fun l => (l, some c))).1)
+        [{ t := t, k := k, h := h, n := y0.length, y := y0 }]
+      = [{ t := t, k := k, h := h, n := (y0 ++ cs).length, y := y0 ++ cs }] := by
+    intro cs
+    induction cs with
+    | nil => intro y0; simp
+    | cons c cs ih =>
+      intro y0
+      simp only [List.foldl_cons, List.map_cons, List.map_nil]
+      rw [(store_iter_cycle { t := t, k := k, h := h, n := y0.length, y := y0 } c hlag rfl).2]
+      have := ih (y0 ++ [c])
+      simp only [List.length_append, List.length_cons, List.length_nil, List.append_assoc, List.cons_append,
+        List.nil_append, Nat.cast_add, Nat.cast_one, zero_add] at this ⊢
+      exact this
+  simpa using key cs []
+
+/-- lagrange_equality after `m` cycles: `p(x) = k*h^m*c^2 + λ_m*c + f(x)` with `λ_m = Σ_{i<m} 2*k*h^i*c_i` -/
+theorem lagrange_equality_after_cycles (k h : K) (cs : List K) (c fx : K) :
+    evalStack [({ t := .lagEq, k := k, h := h, n := cs.length, y := cs }, some c)] fx =
+      .ok (k * h ^ cs.length * c ^ 2 + (∑ i ∈ Finset.range cs.length, 2 * k * h ^ i * cs.getD i 0) * c + fx) := by
+  rw [formula_lagrange_equality]
+  simp only [Int.toNat_natCast]
+  have e : ∑ i ∈ Finset.range cs.length, 2 * k * h ^ i * storedAt cs (i : Int)
+      = ∑ i ∈ Finset.range cs.length, 2 * k * h ^ i * cs.getD i 0 := by
+    apply Finset.sum_congr rfl
+    intro i hi
+    rw [storedAt_eq_getElem cs i (Finset.mem_range.mp hi)]
+    simp [Finset.mem_range.mp hi]
+  rw [e]
+
+/-- the documented multiplier update `lam += 2*pk*f(x)`: one more cycle with condition value `c'` adds `2*k*h^m*c'` -/
+theorem lagrange_equality_multiplier_update (k h : K) (cs : List K) (c' : K) :
+    (∑ i ∈ Finset.range (cs ++ [c']).length, 2 * k * h ^ i * (cs ++ [c']).getD i 0)
+      = (∑ i ∈ Finset.range cs.length, 2 * k * h ^ i * cs.getD i 0) + 2 * k * h ^ cs.length * c' := by
+  simp only [List.length_append, List.length_cons, List.length_nil, zero_add, Finset.sum_range_succ]
+  congr 1
+  · apply Finset.sum_congr rfl
+    intro i hi
+    have := Finset.mem_range.mp hi
+    simp [List.getD, List.getElem?_append_left this]
+  · simp [List.getD]
+
+/-- lagrange_inequality: the multiplier after one more cycle with condition value `c'` is
+`β_{m+1} = max(0, β_m + 2*k*h^m*c')` - the clipped update, for every stored history -/
+theorem lagrange_inequality_multiplier_update (k h : K) (cs : List K) (c' : K) :
+    (betaLoop h (cs ++ [c']) (cs.length + 1) 0 0 k).1
+      = max 0 ((betaLoop h cs cs.length 0 0 k).1 + 2 * (k * h ^ cs.length) * c') := by
+  rw [betaLoop_succ]
+  simp only [Nat.zero_add]
+  rw [storedAt_append_self, betaLoop_congr h (cs ++ [c']) cs cs.length 0 0 k
+    (fun j _ hj => storedAt_append_left cs c' j (by omega)), betaLoop_snd]
+
+/-- barrier_inequality with a vanishing multiplier (`k = 0`, or `h = 0` after an `iter()`): `-.5/_k` divides by zero
+and the `ZeroDivisionError` escapes from `p(x)` on the feasible side -/
+theorem barrier_zero_multiplier_raises (k h : K) (n : Int) (y : List K) (c fx : K) (hc : c ≤ 0)
+    (hp : ¬ (h = 0 ∧ n < 0)) (hk : k * h ^ n = 0) :
+    evalStack [({ t := .barrier, k := k, h := h, n := n, y := y }, some c)] fx = .error .zerodiv := by
+  simp only [evalStack, term, not_lt.mpr hc, if_false, pyPow_ok h n hp, hk, pyDiv_err]
+
+end tree
+
+end MysticVerif.C15
+
+/-! # an infinite multiplier `k = inf` (the documented default of the two uniform types)
+
+An ordered field has no `inf`; the statements below are over `XQ`, the rationals extended by `+inf, -inf, nan` with the
+IEEE-754 conventions the floats follow (`inf * 0 = nan`, `inf - inf = nan`, `nan` absorbs, every comparison with
+`nan` is false).  Uniform types: nothing is added where the condition is satisfied, `+inf` where it is violated.
+Quadratic / linear types: `+inf` where violated, but `nan` (= `inf * 0`) where SATISFIED - the clause "no added
+penalty where satisfied" fails for them at `k = inf` (known finding F8d, replayed on the implementation). -/
+
+namespace MysticVerif.C15
+open MysticVerif.Pen
+
+inductive XQ where
+  | fin (q : ℚ) | pinf | ninf | nan
+  deriving DecidableEq
+
+namespace XQ
+
+def sgnMul (pos : Bool) (q : ℚ) : XQ := if q = 0 then nan else if (0 < q) = pos then pinf else ninf
+
+def add : XQ → XQ → XQ
+  | fin a, fin b => fin (a + b)
+  | nan, _ => nan | _, nan => nan
+  | pinf, ninf => nan | ninf, pinf => nan
+  | pinf, _ => pinf | _, pinf => pinf
+  | ninf, _ => ninf | _, ninf => ninf
+
+def neg : XQ → XQ
+  | fin a => fin (-a) | pinf => ninf | ninf => pinf | nan => nan
+
+def mul : XQ → XQ → XQ
+  | fin a, fin b => fin (a * b)
+  | nan, _ => nan | _, nan => nan
+  | pinf, fin b => sgnMul true b | fin a, pinf => sgnMul true a
+  | ninf, fin b => sgnMul false b | fin a, ninf => sgnMul false a
+  | pinf, pinf => pinf | ninf, ninf => pinf | pinf, ninf => ninf | ninf, pinf => ninf
+
+def div : XQ → XQ → XQ
+  | fin a, fin b => fin (a / b)        -- python raises on b = 0 before (pyDiv)
+  | nan, _ => nan | _, nan => nan
+  | fin _, _ => fin 0
+  | pinf, fin b => if 0 ≤ b then pinf else ninf
+  | ninf, fin b => if 0 ≤ b then ninf else pinf
+  | _, _ => nan
+
+def ltb : XQ → XQ → Bool
+  | fin a, fin b => decide (a < b)
+  | nan, _ => false | _, nan => false
+  | ninf, ninf => false | ninf, _ => true
+  | _, ninf => false
+  | pinf, _ => false
+  | fin _, pinf => true
+
+def beq : XQ → XQ → Bool
+  | fin a, fin b => decide (a = b)
+  | pinf, pinf => true | ninf, ninf => true
+  | _, _ => false
+
+def abs : XQ → XQ
+  | fin a => fin |a| | pinf => pinf | ninf => pinf | nan => nan
+
+instance : Add XQ := ⟨add⟩
+instance : Sub XQ := ⟨fun a b => add a (neg b)⟩
+instance : Mul XQ := ⟨mul⟩
+instance : Div XQ := ⟨div⟩
+instance : Neg XQ := ⟨neg⟩
+instance : LT XQ := ⟨fun a b => ltb a b = true⟩
+instance : DecidableLT XQ := fun a b => inferInstanceAs (Decidable (ltb a b = true))
+instance : BEq XQ := ⟨beq⟩
+instance (n : Nat) : OfNat XQ n := ⟨fin n⟩
+instance : PenOps XQ where
+  powi a n := match a with
+    | fin q => fin (q ^ n)
+    | pinf => if 0 < n then pinf else if n = 0 then fin 1 else fin 0
+    | _ => nan
+  sq a := mul a a
+  root a := a
+  abs := abs
+  log _ := nan
+  inf := pinf
+
+end XQ
+
+namespace XQ
+
+theorem zero_def : (0 : XQ) = fin 0 := by show fin ((0 : Nat) : ℚ) = fin 0; simp
+theorem two_def : (2 : XQ) = fin 2 := by show fin ((2 : Nat) : ℚ) = fin 2; simp
+theorem fin_add (a b : ℚ) : (fin a + fin b : XQ) = fin (a + b) := rfl
+theorem pinf_add_fin (b : ℚ) : (pinf + fin b : XQ) = pinf := rfl
+theorem nan_add (b : XQ) : (nan + b : XQ) = nan := by cases b <;> rfl
+theorem fin_mul (a b : ℚ) : (fin a * fin b : XQ) = fin (a * b) := rfl
+theorem pinf_mul_fin (b : ℚ) : (pinf * fin b : XQ) = if b = 0 then nan else if 0 < b then pinf else ninf := by
+  show sgnMul true b = _
+  unfold sgnMul
+  by_cases h0 : b = 0
+  · simp [h0]
+  · by_cases hp : 0 < b <;> simp [h0, hp]
+theorem fin_mul_pinf (a : ℚ) : (fin a * pinf : XQ) = if a = 0 then nan else if 0 < a then pinf else ninf := by
+  show sgnMul true a = _
+  unfold sgnMul
+  by_cases h0 : a = 0
+  · simp [h0]
+  · by_cases hp : 0 < a <;> simp [h0, hp]
+theorem beq_fin (a b : ℚ) : ((fin a == fin b) = true) ↔ a = b := by
+  show (XQ.beq (fin a) (fin b) = true) ↔ a = b
+  simp [XQ.beq]
+theorem lt_fin (a b : ℚ) : (fin a < fin b) ↔ a < b := by
+  show (XQ.ltb (fin a) (fin b) = true) ↔ a < b
+  simp [XQ.ltb]
+theorem sq_fin (a : ℚ) : (PenOps.sq (fin a) : XQ) = fin (a * a) := rfl
+theorem abs_fin (a : ℚ) : (PenOps.abs (fin a) : XQ) = fin |a| := rfl
+theorem powi_fin (a : ℚ) (n : Int) : (PenOps.powi (fin a) n : XQ) = fin (a ^ n) := rfl
+theorem inf_def : (PenOps.inf : XQ) = pinf := rfl
+
+theorem pyPow_fin (h : ℚ) (hh : 0 < h) (n : Int) : pyPow (fin h) n = .ok (fin (h ^ n)) := by
+  unfold pyPow
+  rw [if_neg, powi_fin]
+  rintro ⟨h0, _⟩
+  rw [zero_def, beq_fin] at h0
+  exact (ne_of_gt hh) h0
+
+theorem pyMax_zero_fin (c : ℚ) : pyMax (0 : XQ) (fin c) = fin (max 0 c) := by
+  unfold pyMax
+  by_cases hc : 0 < c
+  · have hl : (0 : XQ) < fin c := by rw [zero_def, lt_fin]; exact hc
+    rw [if_pos hl, max_eq_right (le_of_lt hc)]
+  · have hl : ¬ (0 : XQ) < fin c := by rw [zero_def, lt_fin]; exact hc
+    rw [if_neg hl, max_eq_left (not_lt.mp hc), zero_def]
+
+end XQ
+
+open XQ in
+/-- `k = inf` with the two uniform types (their default): `p(x) = f(x)` exactly where the condition is satisfied and
+`+inf` where it is violated - for every finite `h > 0`, iteration, stored history, condition value and `f(x)` -/
+theorem infinite_k_uniform (h : ℚ) (hh : 0 < h) (n : Int) (y : List XQ) (c fx : ℚ) :
+    evalStack [(({ t := .uEq, k := pinf, h := fin h, n := n, y := y } : Level XQ), some (fin c))] (fin fx)
+      = .ok (if c = 0 then fin fx else pinf) ∧
+    evalStack [(({ t := .uIneq, k := pinf, h := fin h, n := n, y := y } : Level XQ), some (fin c))] (fin fx)
+      = .ok (if c ≤ 0 then fin fx else pinf) := by
+  have hpos : (0 : ℚ) < h ^ n := zpow_pos hh n
+  have hmul : (pinf : XQ) * fin (h ^ n) = pinf := by
+    rw [pinf_mul_fin, if_neg (ne_of_gt hpos), if_pos hpos]
+  constructor
+  · by_cases hc : c = 0
+    · have hb : ((fin c : XQ) == 0) = true := by rw [zero_def, beq_fin]; exact hc
+      simp only [evalStack, term]
+      rw [if_pos hb, if_pos hc]
+      simp only [zero_def, fin_add, zero_add]
+    · have hb : ¬ (((fin c : XQ) == 0) = true) := by rw [zero_def, beq_fin]; exact hc
+      simp only [evalStack, term]
+      rw [if_neg hb, if_neg hc]
+      simp only [pyPow_fin h hh n, hmul, pinf_add_fin]
+  · by_cases hc : c ≤ 0
+    · have hl : ¬ ((0 : XQ) < fin c) := by rw [zero_def, lt_fin]; exact not_lt.mpr hc
+      simp only [evalStack, term]
+      rw [if_neg hl, if_pos hc]
+      simp only [zero_def, fin_add, zero_add]
+    · have hl : ((0 : XQ) < fin c) := by rw [zero_def, lt_fin]; exact not_le.mp hc
+      simp only [evalStack, term]
+      rw [if_pos hl, if_neg hc]
+      simp only [pyPow_fin h hh n, hmul, pinf_add_fin]
+
+open XQ in
+/-- `k = inf` with the quadratic / linear types: `+inf` where the condition is violated, but `nan` (`inf * 0`) where it
+is SATISFIED - for every finite `h > 0`, iteration, stored history and `f(x)`: the clause "no added penalty where
+satisfied" fails for these four types at `k = inf` (F8d) -/
+theorem infinite_k_quadratic_linear (h : ℚ) (hh : 0 < h) (n : Int) (y : List XQ) (c fx : ℚ) :
+    evalStack [(({ t := .qEq, k := pinf, h := fin h, n := n, y := y } : Level XQ), some (fin c))] (fin fx)
+      = .ok (if c = 0 then nan else pinf) ∧
+    evalStack [(({ t := .lEq, k := pinf, h := fin h, n := n, y := y } : Level XQ), some (fin c))] (fin fx)
+      = .ok (if c = 0 then nan else pinf) ∧
+    evalStack [(({ t := .qIneq, k := pinf, h := fin h, n := n, y := y } : Level XQ), some (fin c))] (fin fx)
+      = .ok (if c ≤ 0 then nan else pinf) ∧
+    evalStack [(({ t := .lIneq, k := pinf, h := fin h, n := n, y := y } : Level XQ), some (fin c))] (fin fx)
+      = .ok (if c ≤ 0 then nan else pinf) := by
+  have hpos : (0 : ℚ) < h ^ n := zpow_pos hh n
+  have hmul : (pinf : XQ) * fin (h ^ n) = pinf := by
+    rw [pinf_mul_fin, if_neg (ne_of_gt hpos), if_pos hpos]
+  have h2 : (2 : XQ) * pinf = pinf := by rw [two_def, fin_mul_pinf]; norm_num
+  have key : ∀ a : ℚ, 0 ≤ a → ((pinf : XQ) * fin a + fin fx) = if a = 0 then nan else pinf := by
+    intro a ha
+    rw [pinf_mul_fin]
+    by_cases h0 : a = 0
+    · rw [if_pos h0, if_pos h0, nan_add]
+    · rw [if_neg h0, if_neg h0, if_pos (lt_of_le_of_ne ha (Ne.symm h0)), pinf_add_fin]
+  refine ⟨?_, ?_, ?_, ?_⟩
+  · simp only [evalStack, term, pyPow_fin h hh n, hmul, sq_fin, key (c * c) (mul_self_nonneg c), mul_self_eq_zero]
+  · simp only [evalStack, term, pyPow_fin h hh n, hmul, abs_fin, key |c| (abs_nonneg c), abs_eq_zero]
+  · simp only [evalStack, term, pyPow_fin h hh n, hmul, h2, pyMax_zero_fin, sq_fin,
+      key (max 0 c * max 0 c) (mul_self_nonneg _), mul_self_eq_zero]
+    congr 1
+    by_cases hc : c ≤ 0
+    · simp [hc]
+    · have : ¬ max 0 c = 0 := by rw [max_eq_right (le_of_lt (not_le.mp hc))]; exact ne_of_gt (not_le.mp hc)
+      simp [hc, this]
+  · simp only [evalStack, term, pyPow_fin h hh n, hmul, h2, pyMax_zero_fin, abs_fin,
+      key |max 0 c| (abs_nonneg _), abs_eq_zero]
+    congr 1
+    by_cases hc : c ≤ 0
+    · simp [hc]
+    · have : ¬ max 0 c = 0 := by rw [max_eq_right (le_of_lt (not_le.mp hc))]; exact ne_of_gt (not_le.mp hc)
+      simp [hc, this]
+
+open XQ in
+/-- the concrete witnesses replayed on the implementation (`c15.witness_specs`): quadratic_equality(k=inf, h=5) over
+`f(x) = 1` returns `nan` at the satisfied value `c = 0` and `+inf` at the violated value `c = 1/2`; the linear and
+inequality variants return `nan` at satisfied values -/
+theorem infinite_k_nan_on_feasible_witness :
+    evalStack [(({ t := .qEq, k := pinf, h := fin 5, n := 0, y := [] } : Level XQ), some (fin 0))] (fin 1) = .ok nan ∧
+    evalStack [(({ t := .qEq, k := pinf, h := fin 5, n := 0, y := [] } : Level XQ), some (fin (1 / 2)))] (fin 1) = .ok pinf ∧
+    evalStack [(({ t := .lEq, k := pinf, h := fin 5, n := 0, y := [] } : Level XQ), some (fin 0))] (fin 1) = .ok nan ∧
+    evalStack [(({ t := .qIneq, k := pinf, h := fin 5, n := 0, y := [] } : Level XQ), some (fin (-1)))] (fin 1) = .ok nan ∧
+    evalStack [(({ t := .lIneq, k := pinf, h := fin 5, n := 0, y := [] } : Level XQ), some (fin (-1)))] (fin 1) = .ok nan := by
+  have h5 : (0 : ℚ) < 5 := by norm_num
+  refine ⟨?_, ?_, ?_, ?_, ?_⟩
+  · rw [(infinite_k_quadratic_linear 5 h5 0 [] 0 1).1]; simp
+  · rw [(infinite_k_quadratic_linear 5 h5 0 [] (1 / 2) 1).1]; norm_num
+  · rw [(infinite_k_quadratic_linear 5 h5 0 [] 0 1).2.1]; simp
+  · rw [(infinite_k_quadratic_linear 5 h5 0 [] (-1) 1).2.2.1]; norm_num
+  · rw [(infinite_k_quadratic_linear 5 h5 0 [] (-1) 1).2.2.2]; norm_num
+
+end MysticVerif.C15
+
+/-! ## non-vacuity of the tree / state-machine theorems -/
+
+namespace MysticVerif.C15
+open MysticVerif.Pen
+
+section examples2
+
+local instance : PenOps ℚ := ⟨fun a n => a ^ n, fun a => a * a, fun _ => 0, fun a => |a|, fun _ => 0, 0⟩
+local instance : LawfulPenOps ℚ := ⟨fun _ _ => rfl, fun _ => rfl, fun _ => rfl⟩
+
+/-- conditions: #0 = 3 (violated), #1 = 0 (satisfied), #2 raises; decorated functions: #0 = 0, #1 = 7 -/
+def exEnv : Env ℚ := ⟨fun i => if i = 0 then some 3 else if i = 1 then some 0 else none, fun j => if j = 0 then 0 else 7⟩
+
+/-- `quadratic_equality(c0, k=2, h=5)` at iteration 1 over a zero base: 2*5*9 = 90 -/
+def exM1 : PT ℚ := .pen { t := .qEq, k := 2, h := 5, n := 1, y := [] } (.leaf 0) (.base 0)
+/-- `linear_inequality(c1, k=1, h=5)` over a zero base: satisfied -/
+def exM2 : PT ℚ := .pen { t := .lIneq, k := 1, h := 5, n := 0, y := [] } (.leaf 1) (.base 0)
+/-- `and_(m1, m2)` (defaults: linear_equality, k=1, h=5) decorated once more by `uniform_inequality(c0, k=4, h=1)(...)` -/
+def exTree : PT ℚ :=
+  .pen { t := .uIneq, k := 4, h := 1, n := 0, y := [] } (.leaf 0)
+    (.pen { t := .lEq, k := 1, h := 5, n := 0, y := [] } (.and (.cons exM1 (.cons exM2 .nil))) (.base 0))
+
+-- the member values, the combined condition and the stacked result 4 + 1*|90 + 0| + 0
+example : valsL exEnv (.cons exM1 (.cons exM2 .nil)) = some [90, 0] := by
+  simp [valsL, evalT, condV, exM1, exM2, exEnv, term, pyPow, PenOps.powi, PenOps.sq, PenOps.abs, pyMax]
+  norm_num
+example : evalT exEnv exTree = .ok 94 := by
+  simp [exTree, valsL, evalT, condV, exM1, exM2, exEnv, term, pyPow, PenOps.powi, PenOps.sq, PenOps.abs, pyMax, andCond]
+  norm_num
+-- a member whose condition divides by zero makes the and_ penalty (default type, k = 1) infinite: `inf` is 0 in this toy instance
+example : evalT exEnv (.pen { t := .lEq, k := 1, h := 5, n := 0, y := [] }
+    (.and (.cons (.pen { t := .qEq, k := 2, h := 5, n := 0, y := [] } (.leaf 2) (.base 0)) .nil)) (.base 0))
+    = .ok (1 * 5 ^ (0 : Int) * |(PenOps.inf : ℚ)| + 0) := by
+  simp [valsL, evalT, condV, exEnv, term, pyPow, PenOps.powi, PenOps.abs, andCond, PenOps.inf]
+-- hypotheses of `member_sign` / `tree_stacked_add` on the member m1
+example : chainVals exEnv exM1 = [(({ t := .qEq, k := 2, h := 5, n := 1, y := [] } : Level ℚ), (3 : ℚ))].map
+    fun p => (p.1, some p.2) := by
+  simp [chainVals, chain, exM1, condV, exEnv]
+-- an operation history on three different objects (root, decorated level, member m1): only iteration state moves
+example : skelT ([TOp.iter [] none, TOp.iter [.down] (some 4), TOp.store [.down, .member 0] exEnv none,
+    TOp.clear [.down, .member 1]].foldl (fun s o => o.apply s) exTree) = skelT exTree :=
+  tree_ops_touch_only_iteration_state _ _
+example : getT [.down, .member 0] exTree = some exM1 := by
+  simp [getT, getC, getL, exTree]
+-- two cycles of the Lagrange outer loop
+example : [(3 : ℚ), -1].foldl
+    (fun (ls : List (Level ℚ)) c => iterStack none (storeStack none (ls.map fun l => (l, some c))).1)
+      [{ t := .lagEq, k := 20, h := 5, n := 0, y := [] }]
+    = [{ t := .lagEq, k := 20, h := 5, n := 2, y := [3, -1] }] :=
+  lagrange_cycles .lagEq 20 5 rfl [3, -1]
+
+end examples2
+
+end MysticVerif.C15
+
+/-! ## counter calls interleaved over the handles of different levels of one stack -/
+
+namespace MysticVerif.C15
+open MysticVerif.Pen
+
+section handles
+variable {K : Type} [Field K] [LinearOrder K] [IsStrictOrderedRing K] [PenOps K] [LawfulPenOps K]
+
+/-- the counter operation on ONE level -/
+def CtrOp.lvl (o : CtrOp) (l : Level K) : Level K :=
+  match o with
+  | .iter => { l with n := l.n + 1 }
+  | .iterI i => { l with n := i }
+  | .clear => { l with n := 0, y := [] }
+
+theorem CtrOp.apply_eq_map (o : CtrOp) (ls : List (Level K)) : o.apply ls = ls.map o.lvl := by
+  cases o <;> simp [CtrOp.apply, CtrOp.lvl, iterStack, clearStack]
+
+theorem mapIdx_const {α β : Type} (g : α → β) : ∀ ls : List α, List.mapIdx (fun _ l => g l) ls = List.map g ls
+  | [] => rfl
+  | l :: ls => by
+    rw [List.mapIdx_cons, List.map_cons]
+    exact congrArg _ (mapIdx_const g ls)
+
+theorem onFrom_map (g : Level K → Level K) : ∀ (ls : List (Level K)) (j : Nat),
+    onFrom j (List.map g) ls = ls.mapIdx (fun idx l => if j ≤ idx then g l else l) := by
+  intro ls
+  induction ls with
+  | nil => intro j; simp [onFrom]
+  | cons l ls ih =>
+    intro j
+    cases j with
+    | zero => simp [onFrom, List.mapIdx_cons, mapIdx_const]
+    | succ j =>
+      have := ih j
+      simp only [onFrom, List.take_succ_cons, List.drop_succ_cons, List.cons_append] at this ⊢
+      rw [this, List.mapIdx_cons]
+      simp
+
+/-- **interleaved handles**: after ANY history of `iter()` / `iter(i)` / `clear()` calls, each made through the handle
+of an arbitrary level `j` of the stack, level `idx` has seen exactly the calls with `j ≤ idx`, in order -/
+theorem iteration_history_handles (os : List (Nat × CtrOp)) : ∀ ls : List (Level K),
+    os.foldl (fun s o => onFrom o.1 o.2.apply s) ls
+      = ls.mapIdx (fun idx l => os.foldl (fun l o => if o.1 ≤ idx then o.2.lvl l else l) l) := by
+  induction os with
+  | nil => intro ls; simpa using (mapIdx_const (fun l : Level K => l) ls).symm
+  | cons o os ih =>
+    intro ls
+    simp only [List.foldl_cons]
+    rw [ih]
+    have e : onFrom o.1 o.2.apply ls = onFrom o.1 (List.map o.2.lvl) ls := by
+      unfold onFrom; rw [CtrOp.apply_eq_map]
+    rw [e, onFrom_map, List.mapIdx_mapIdx]
+    rfl
+
+-- calls through the handles of levels 0, 1, 0 of a two-level stack: level 0 sees iter(), iter(); level 1 all three
+example : ([(0, CtrOp.iter), (1, CtrOp.iterI 7), (0, CtrOp.iter)].foldl (fun s o => onFrom o.1 o.2.apply s)
+    [({ t := .qEq, k := 1, h := 5, n := 0, y := [] } : Level ℚ), { t := .lagEq, k := 1, h := 5, n := 0, y := [] }]).map (·.n)
+    = [2, 8] := by
+  simp [onFrom, CtrOp.apply, iterStack]
+
+end handles
 
 end MysticVerif.C15
